@@ -47,6 +47,7 @@ Proof.
 Qed.
 
 Section Cover.
+  Variable V : prop_variant.
   Variable bm : bool.
   Variable r : string.
   Variable dom : ty -> Prop.
@@ -132,7 +133,7 @@ Section Cover.
   Qed.
 
   Lemma cover_step seen e a : CInv seen e -> dom a ->
-    exists e', snd (propagate bm r (Some e) a) = Some e' /\ CInv (seen ++ [a]) e'.
+    exists e', snd (propagate V bm r (Some e) a) = Some e' /\ CInv (seen ++ [a]) e'.
   Proof.
     destruct e as [dt dr]. intros [W [Hc Hst]] Ha. cbn [fst snd] in *.
     destruct (arg_ok_parts a (dom_ok a Ha)) as [Sa [Ua [Ba Da]]].
@@ -206,7 +207,7 @@ Section Cover.
   Qed.
 
   Lemma cover_run rest : forall seen e, CInv seen e -> Forall dom rest ->
-    exists e', round_run bm r (Some e) rest = Some e' /\ CInv (seen ++ rest) e'.
+    exists e', round_run V bm r (Some e) rest = Some e' /\ CInv (seen ++ rest) e'.
   Proof.
     induction rest as [|a rest IH]; intros seen e He Hr.
     - exists e. rewrite app_nil_r. split; [reflexivity | exact He].
@@ -222,10 +223,10 @@ Section Cover.
   Definition start_ok (e : option pentry) : Prop := match e with None => True | Some (dt, _) => wf_ty dt end.
 
   (* C15: after the call sites of a round — from any such state — the parameter admits the argument of every one of them *)
-  Theorem round_covers e args a : start_ok e -> Forall dom args -> In a args -> covered (round_run bm r e args) a.
+  Theorem round_covers e args a : start_ok e -> Forall dom args -> In a args -> covered (round_run V bm r e args) a.
   Proof.
     intros Hs Hd Hin.
-    assert (G : forall seen e0, CInv seen e0 -> forall rest, Forall dom rest -> In a (seen ++ rest) -> covered (round_run bm r (Some e0) rest) a).
+    assert (G : forall seen e0, CInv seen e0 -> forall rest, Forall dom rest -> In a (seen ++ rest) -> covered (round_run V bm r (Some e0) rest) a).
     { intros seen e0 H0 rest Hr Hi. destruct (cover_run rest seen e0 H0 Hr) as [[dt' dr'] [E [_ [Hc _]]]].
       rewrite E. cbn [covered]. apply Hc. exact Hi. }
     destruct e as [[dt dr]|].
@@ -236,7 +237,7 @@ Section Cover.
       right. split; [exact N1 | split; [exact N2|]]. intros H. exfalso. apply H. reflexivity.
     - destruct args as [|a0 rest]; [destruct Hin|]. inversion Hd as [|? ? Ha0 Hr]; subst.
       destruct (arg_ok_parts a0 (dom_ok a0 Ha0)) as [Sa [Ua [Ba Da]]].
-      unfold round_run. cbn [fold_left propagate snd]. fold (round_run bm r (Some (set_inf a0 true, r)) rest).
+      unfold round_run. cbn [fold_left propagate snd]. fold (round_run V bm r (Some (set_inf a0 true, r)) rest).
       apply (G [a0] (set_inf a0 true, r) (fresh_entry a0 Sa Ua Ba Da) rest Hr). exact Hin.
   Qed.
 End Cover.
